@@ -98,7 +98,10 @@ def work(item):
     res = Result(f"{kind}|{p['label']}")
     from orquestra.quantum.circuits import _gates as G, _operations as O, _circuit as CM, _wavefunction_operations as WO
 
-    res.fn(O.sub_symbols, O._sub_symbols_in_expression, O._sub_symbols_in_symbol, O.get_free_symbols, G.MatrixFactoryGate.bind, G.ControlledGate.bind, G.Dagger.bind, G.CustomGateMatrixFactory.__call__, CM.Circuit.bind, CM.Circuit.free_symbols.fget, WO.MultiPhaseOperation.bind)
+    try:  # evidence only: a renamed private helper must not break the check
+        res.fn(O.sub_symbols, O._sub_symbols_in_expression, O._sub_symbols_in_symbol, O.get_free_symbols, G.MatrixFactoryGate.bind, G.ControlledGate.bind, G.Dagger.bind, G.CustomGateMatrixFactory.__call__, CM.Circuit.bind, CM.Circuit.free_symbols.fget, WO.MultiPhaseOperation.bind)
+    except AttributeError:
+        pass
     try:
         {"gate": _w_gate, "circ": _w_circ, "refuse": _w_refuse, "nongate": _w_nongate}[kind](res, p)
     except Refuse as e:
